@@ -335,6 +335,8 @@ STR_METHODS = ['lower', 'upper', 'strip', 'lstrip', 'rstrip', 'split', 'rsplit',
 
 def str_method(I, s, name):
     def call(I, *args, **kw):
+        if name == 'format':
+            return str_format(I, s, args, kw)
         cargs = []
         for a in args:
             if isinstance(a, VList):
@@ -1185,6 +1187,7 @@ def make_builtins(I):
                filter=b_filter, format=b_format, divmod=b_divmod, repr=b_repr, property=b_property)
     for k, v in fns.items():
         b[k] = Builtin(k, v)
+    b['open'] = Builtin('open', lambda I, *a, **k: I.call(I.import_module('externals.os_model').ns['open_'], list(a), k))
     b['classmethod'] = Builtin('classmethod', lambda I, f: VClassMethod(f))
     b['staticmethod'] = Builtin('staticmethod', lambda I, f: VStaticMethod(f))
     b['NotImplemented'] = _im().NOTIMPL
